@@ -66,8 +66,8 @@ fn main() {
         "queries run through the verif-hooks facade SiiQueries over an in-memory EepromDataProvider serving 4 or 8 byte chunks ; a second sub-run asks the same questions through the SII registers of a simulated device (command register, busy polling, command errors)".into(),
     ];
 
-    check.run_prop("h4-images", 16, tier.pick(1_500, 40_000), ec::c12_case, run);
+    check.run_prop("h4-images", 16, tier.pick(1_500, 300_000), ec::c12_case, run);
     // the same questions through the SII interface of a simulated device
-    check.run_prop("sii-device-path", 16, tier.pick(300, 6_000), ss::sii_dev_case, run_dev);
+    check.run_prop("sii-device-path", 16, tier.pick(300, 30_000), ss::sii_dev_case, run_dev);
     check.finish();
 }
